@@ -137,11 +137,11 @@ CLAIMED = {
          'Trusted: Lean kernel, Mathlib, object generator/encoder and independent parse-back in the harness; Python str() of shapeless objects is an input; Nat.repr renders digits.',
          'Lean 4 proofs about an exact rendering model (row-major coverage by induction over chunks, exact rounding bound) + character-exact differential correspondence + totality / parse-back falsifier',
          'DESIGN.md section 5 C20'),
- 'C17': ('Partial proof: a translator (translate/gen_c17.py) reads the two JIT modules on every run and regenerates 306 Lean 4 theorems, one per integer subscript / constant slice of every one of the 47 @jit kernels: '
+ 'C17': ('Partial proof: a translator (translate/gen_c17.py) reads the two JIT modules on every run and regenerates 383 Lean 4 theorems: one per integer subscript / constant slice of every one of the 47 @jit kernels (306) and one per resolvable argument relation at every kernel call in arm_model.py / sp_model.py (77: the slice stays inside its parent, extents the kernel relates are equal at the call — the FKLink defect was exactly such an inequality): '
          'under the documented argument shapes, the ranges of the enclosing loops and the integer guards of the enclosing ifs, the index lies within the extent of the array (each closed by omega; local array shapes are inferred from the source; one loop invariant is declared and itself generated as obligations). '
          'A changed loop bound, index offset, local array size or dropped guard makes a theorem false and the build fail; a subscript the translator cannot resolve makes it refuse the source. '
          'The documented argument / return shapes are checked against the inputs really passed and values really returned. '
-         'That the call sites in arm_model.py / sp_model.py pass arrays of those shapes, and that compiled and interpreted execution agree on C-ordered, Fortran-ordered, sliced and integer-typed arguments, is decided on the implementation: a differential py_func run and a run of the whole public surface with NUMBA_BOUNDSCHECK=1 against one without (sampled).',
+         'That call-site arguments built from locals have those shapes, and that compiled and interpreted execution agree on C-ordered, Fortran-ordered, sliced and integer-typed arguments, is decided on the implementation: a differential py_func run and a run of the whole public surface with NUMBA_BOUNDSCHECK=1 against one without (sampled).',
          'Trusted: Lean kernel (omega), the translator and its shape tables, numba compiling an in-bounds index expression to an in-bounds access and reporting out-of-range scalar indices under NUMBA_BOUNDSCHECK.',
          'Translator-generated Lean 4 index-bound theorems (regenerated from source each run) + compiled-vs-interpreted differential run over array layouts + bounds-checked run of the public surface in a sub-process',
          'DESIGN.md section 5 C17'),
